@@ -1194,7 +1194,7 @@ impl<Alloc: BrotliAlloc> BrotliEncoderStateStruct<Alloc> {
         mut dict: &[u8],
         opt_hasher: UnionHasher<Alloc>,
     ) {
-        let has_optional_hasher = if let UnionHasher::Uninit = opt_hasher {
+        let mut has_optional_hasher = if let UnionHasher::Uninit = opt_hasher {
             false
         } else {
             true
@@ -1215,6 +1215,11 @@ impl<Alloc: BrotliAlloc> BrotliEncoderStateStruct<Alloc> {
         if size > max_dict_size {
             dict = &dict[size.wrapping_sub(max_dict_size)..];
             dict_size = max_dict_size;
+            if has_optional_hasher {
+                // the shared index holds positions of the untruncated prefix: useless here
+                DestroyHasher(&mut self.m8, &mut self.hasher_);
+                has_optional_hasher = false;
+            }
         }
         self.copy_input_to_ring_buffer(dict_size, dict);
         self.recoder_state.num_bytes_encoded = dict_size; // stream positions start behind the dictionary
